@@ -1,8 +1,14 @@
 """Per-property descriptors: which specifications are model-checked, which generate the
 cases, which judge the trace, seeded random case generators, class rules."""
+import os
 import random
 
 PROPS = {}
+
+
+# thorough tier: the seeded random part is this many times the base count (measured: all twenty thorough checks took
+# 25 minutes together at scale 1; the enumerated parts are unaffected)
+TH = int(os.environ.get("VERIF_THOROUGH_SCALE", "4"))
 
 
 def rbytes(rng, n):
@@ -145,7 +151,7 @@ COMMON_ASSUME = [
 # ---------------------------------------------------------------- C16
 def rand_c16(seed, tier, cases=None):
     rng = random.Random(seed * 7919 + 16)
-    n = 1500 if tier == "quick" else 20000
+    n = 1500 if tier == "quick" else 20000 * TH
     out = []
     for _ in range(n):
         kind = rng.choice(["g711", "g722", "opus", "opusdepack"])
@@ -240,7 +246,7 @@ def rand_c01(seed, tier, cases=None):
     for words in (16384, 16385):
         p = _giant_legacy(rng, words)
         out.append(dict(fam="C01", p=p, tags=_ptags(p), dsts=[], sites=[], **{"class": "giant_legacy"}))
-    for _ in range(2500 if tier == "quick" else 40000):
+    for _ in range(2500 if tier == "quick" else 40000 * TH):
         p = _rand_packet(rng)
         out.append(dict(fam="C01", p=p, p2=_rand_packet(rng), tags=_ptags(p), dsts=[], sites=[], **{"class": "rand_" + _ptags(p)["layout"]}))
     return out
@@ -249,7 +255,7 @@ def rand_c01(seed, tier, cases=None):
 def rand_c04(seed, tier, cases=None):
     rng = random.Random(seed * 7919 + 4)
     out = []
-    for _ in range(800 if tier == "quick" else 12000):
+    for _ in range(800 if tier == "quick" else 12000 * TH):
         p = _rand_packet(rng)
         dsts = [[rng.randint(0, 1), rng.randint(0, 400), rng.randint(0, 2)] for _ in range(6)]
         out.append(dict(fam="C04", p=p, tags=_ptags(p), dsts=dsts, sites=[], **{"class": "rand_" + _ptags(p)["layout"]}))
@@ -349,7 +355,7 @@ def rand_c03(seed, tier, cases=None):
         p = _giant_legacy(rng, words)
         img, n, term = _py_image(p, rng)
         out.append(dict(fam="C03", kind="image", bytes=img, prev=[], p=p, n=n, term=False, tags=_ptags(p), **{"class": "giant_legacy_image"}))
-    for _ in range(2000 if tier == "quick" else 30000):
+    for _ in range(2000 if tier == "quick" else 30000 * TH):
         p = _rand_packet(rng)
         if p["x"] and p["profile"] not in (0xBEDE, 0x1000) and 0x1000 < p["profile"] <= 0x100F:
             p["profile"] = 0x2000  # RFC 8285 appbits: ambiguity the statement does not take a side on
@@ -367,7 +373,7 @@ def rand_c02(seed, tier, cases=None):
     rng = random.Random(seed * 7919 + 2)
     base = [c["bytes"] for c in (cases or []) if c.get("bytes")]
     out = []
-    n = 3000 if tier == "quick" else 60000
+    n = 3000 if tier == "quick" else 60000 * TH
     for k in range(n):
         mode = rng.random()
         if mode < 0.35 or not base:
@@ -396,7 +402,7 @@ def rand_c02(seed, tier, cases=None):
         out.append(dict(fam="C02", kind="bytes", bytes=b, prev=prev, **{"class": cl}))
     # longer receiver histories: accepted and REJECTED inputs before the judged one (a rejected decode may leave
     # the receiver half-written): whole images, images cut inside the CSRC list / extension block / anywhere, X bit toggled
-    for k in range(1500 if tier == "quick" else 30000):
+    for k in range(1500 if tier == "quick" else 30000 * TH):
         if not base:
             break
         def damaged():
@@ -476,7 +482,7 @@ def rand_c05(seed, tier, cases=None):
     rng = random.Random(seed * 7919 + 5)
     starts = ["fresh", "onebyte", "twobyte", "legacy", "um_onebyte", "um_twobyte", "um_legacy", "um_dup"]
     out = []
-    for _ in range(4000 if tier == "quick" else 60000):
+    for _ in range(4000 if tier == "quick" else 60000 * TH):
         n = rng.randint(1, 10)
         ops = []
         for j in range(n):
@@ -516,7 +522,7 @@ prop(dict(
 def rand_c17(seed, tier, cases=None):
     rng = random.Random(seed * 7919 + 17)
     out = []
-    n = 4000 if tier == "quick" else 60000
+    n = 4000 if tier == "quick" else 60000 * TH
     for _ in range(n):
         codec = rng.choice(["audio", "tcc", "playout", "abssend", "abscapture"])
         if rng.random() < 0.5:
@@ -564,7 +570,7 @@ prop(dict(
 def rand_c19(seed, tier, cases=None):
     rng = random.Random(seed * 7919 + 19)
     out = []
-    for _ in range(5000 if tier == "quick" else 80000):
+    for _ in range(5000 if tier == "quick" else 80000 * TH):
         ln = rng.choice([0, 1, 2, 3, 4, 5, 8, rng.randint(0, 40)])
         b = [rng.randint(0, 255) for _ in range(ln)]
         if b and rng.random() < 0.5:
@@ -598,7 +604,7 @@ prop(dict(
 def rand_c18(seed, tier, cases=None):
     rng = random.Random(seed * 7919 + 18)
     out = []
-    n = 4000 if tier == "quick" else 150000
+    n = 4000 if tier == "quick" else 150000 * TH
     for _ in range(n):
         kind = rng.choice(["estimate", "estimate", "capture", "offset"])
         def instant():
@@ -709,7 +715,7 @@ prop(dict(
 def rand_c06(seed, tier, cases=None):
     rng = random.Random(seed * 7919 + 6)
     out = []
-    for _ in range(1200 if tier == "quick" else 15000):
+    for _ in range(1200 if tier == "quick" else 15000 * TH):
         mtu = rng.choice([64, 65, 80, 100, 576, 1200, 1500, rng.randint(64, 2000)])
         ops = []
         for j in range(rng.randint(1, 10)):
@@ -769,7 +775,7 @@ def rand_c08(seed, tier, cases=None):
     for kind in C08_KINDS:
         for shape in ("pat", _shapes_for(kind)[-1]):
             out.append(dict(fam="C08", kind=kind, scribble=True, calls=[dict(mtu=1200, shape=shape, len=70000, salt=3)], **{"class": kind + "_giant_input"}))
-    for _ in range(6000 if tier == "quick" else 80000):
+    for _ in range(6000 if tier == "quick" else 80000 * TH):
         kind = rng.choice(C08_KINDS)
         calls = []
         for j in range(rng.choice([1, 1, 2, 3, 5, 7])):
@@ -808,7 +814,7 @@ C09_KINDS = ["h264", "h264_avc", "h265", "h265_donl", "vp8", "vp9", "av1", "av1_
 def rand_c09(seed, tier, cases=None):
     rng = random.Random(seed * 7919 + 9)
     out = []
-    for _ in range(8000 if tier == "quick" else 100000):
+    for _ in range(8000 if tier == "quick" else 100000 * TH):
         kind = rng.choice(C09_KINDS)
         items = []
         for j in range(rng.randint(1, 8)):
@@ -849,7 +855,7 @@ prop(dict(
 def rand_c11(seed, tier, cases=None):
     rng = random.Random(seed * 7919 + 11)
     out = [dict(fam="C11", kind="payload", valid=True, mtu=1200, pidon=True, startid=300, frames=[dict(len=70000, salt=3, fillv=-1)], **{"class": "giant_frame"})]
-    for _ in range(1500 if tier == "quick" else 20000):
+    for _ in range(1500 if tier == "quick" else 20000 * TH):
         mtu = rng.choice([5, 6, 7, 9, 13, 50, 200, 1200, rng.randint(5, 1500)])
         frames = [dict(len=rng.choice([1, 2, mtu - 4, mtu - 3, mtu - 1, mtu, mtu + 1, 2 * mtu, rng.randint(1, 3 * mtu), rng.randint(1, 15 * mtu) if mtu < 150 else 300,
                                        rng.choice([1, 2, 3, 4]) * mtu - rng.randint(0, 14)]), salt=rng.randint(0, 200), fillv=rng.choice([-1, -1, -1, 255, 0, rng.randint(0, 255)])) for _ in range(rng.randint(1, 9))]
@@ -924,7 +930,7 @@ def rand_c10(seed, tier, cases=None):
                 out.append(dict(fam="C10", kind="payloader", mtu=1200, stapa=True,
                                 calls=[dict(units=[sps1, pps1, idr], scs=[4, 4, 4]), dict(units=[sps2, pps2, idr], scs=[4, 4, 4]), dict(units=[sps1, pps1, idr], scs=[3, 3, 3])],
                                 **{"class": "params_resplit_generations"}))
-    for _ in range(2000 if tier == "quick" else 20000):
+    for _ in range(2000 if tier == "quick" else 20000 * TH):
         mtu = rng.choice([3, 4, 5, 6, 9, 17, 33, 100, 1200, rng.randint(3, 300)])
         stap = rng.random() < 0.6
         calls = []
@@ -1004,7 +1010,7 @@ def rand_c12(seed, tier, cases=None):
     for flex in (True, False):
         hdr = dict(profile=0, existing=False, idx=0, nonkey=False, show=True, errres=False, deep=False, cs=2, range=False, ssx=True, ssy=True, w=1280, h=720)
         out.append(dict(fam="C12", kind="payload", valid=True, mtu=1200, flexible=flex, startid=300, frames=[dict(hdr=hdr, body=70000, salt=5, fillv=-1)], **{"class": "giant_frame"}))
-    for _ in range(1200 if tier == "quick" else 15000):
+    for _ in range(1200 if tier == "quick" else 15000 * TH):
         mtu = rng.choice([12, 13, 15, 20, 64, 200, 1200, rng.randint(12, 1500)])
         frames = []
         for n in range(rng.randint(1, 8)):
@@ -1050,7 +1056,7 @@ def rand_c14(seed, tier, cases=None):
         return [t << 1, 1] + [(i * 7) % 250 + 1 for i in range(n - 2)]
     for mtu, units in ((1200, [unit(32, 24), unit(19, 66236)]), (1200, [unit(19, 70000)]), (65535, [unit(1, 65536)]), (65535, [unit(33, 9), unit(1, 65534)])):
         out.append(dict(fam="C14", kind="payload", valid=True, mtu=mtu, donl=False, skipagg=False, calls=[dict(units=units, scs=[4] * len(units))], **{"class": "giant_unit"}))
-    for _ in range(2000 if tier == "quick" else 20000):
+    for _ in range(2000 if tier == "quick" else 20000 * TH):
         mtu = rng.choice([4, 5, 6, 7, 9, 13, 20, 50, 100, 1200, rng.randint(4, 300)])
         units = []
         for _u in range(rng.randint(1, 7)):
@@ -1114,7 +1120,7 @@ def rand_c13(seed, tier, cases=None):
     big = [dict(type=6, ext=False, tid=0, sid=0, r3=0, r1=0, hassize=True, payload=[(i * 7) % 251 for i in range(70000)]),
            dict(type=6, ext=False, tid=0, sid=0, r3=0, r1=0, hassize=True, payload=[1, 2, 3])]
     out.append(dict(fam="C13", kind="payload", valid=True, mtu=1200, obus=big, stream=_obu_stream(big), **{"class": "giant_obu"}))
-    for _ in range(1200 if tier == "quick" else 15000):
+    for _ in range(1200 if tier == "quick" else 15000 * TH):
         mtu = rng.choice([2, 3, 4, 5, 7, 16, 64, 129, 130, 131, 200, 1200, rng.randint(2, 400)])
         n = rng.randint(1, 8 if tier == "thorough" else 5)
         obus = []
@@ -1170,7 +1176,7 @@ def rand_g02(seed, tier, cases=None):
     rng = random.Random(seed * 7919 + 102)
     base = [c["bytes"] for c in (cases or []) if len(c.get("bytes", [])) >= 8]
     out = []
-    for _ in range(3000 if tier == "quick" else 60000):
+    for _ in range(3000 if tier == "quick" else 60000 * TH):
         if rng.random() < 0.5 and base:
             b = list(rng.choice(base))
             for _k in range(rng.randint(1, 2)):
